@@ -352,6 +352,13 @@ func isLoadOfThroughRecords(p *eng.Prog, v ssa.Value, f *types.Var) bool {
 		if eng.SameField(eng.LoadedField(v), f) {
 			return true
 		}
+		// a local the value was copied to before a closure uses it (limit := s.cap)
+		if w := eng.StripConv(resolveCell(v)); w != v {
+			if eng.SameField(eng.LoadedField(w), f) {
+				return true
+			}
+			v = w
+		}
 		w, ok := recordField(p, v)
 		if !ok {
 			return false
